@@ -370,6 +370,71 @@ fn st_random(i: &Input, c: &mut Case) -> Result<(), String> {
     Ok(())
 }
 
+/// Slices of 4 GiB and more (the rest of a large file handed over in one piece): the answer depends on the vint at the start alone.
+/// One zero-filled buffer of 4 GiB + 16 bytes (never touched beyond its first page, so it costs address space only); for every vint
+/// length 1..=8 and every slice length 2^32 + r, r = 0..=16, and 2^32 - 1: both decoders against the reference and against their own
+/// answer for the 8/16-byte prefix.
+fn st_giant_slices(_i: &Input, c: &mut Case) -> Result<(), String> {
+    const N: usize = (1usize << 32) + 16;
+    let layout = std::alloc::Layout::from_size_align(N, 8).unwrap();
+    let p = unsafe { std::alloc::alloc_zeroed(layout) };
+    if p.is_null() {
+        c.exclude("no_address_space_for_a_4GiB_slice");
+        c.units = 1;
+        return Ok(());
+    }
+    struct Free(*mut u8, std::alloc::Layout);
+    impl Drop for Free {
+        fn drop(&mut self) {
+            unsafe { std::alloc::dealloc(self.0, self.1) }
+        }
+    }
+    let _free = Free(p, layout);
+    let buf: &mut [u8] = unsafe { std::slice::from_raw_parts_mut(p, N) };
+    let mut units = 0u64;
+    for l in 1..=8usize {
+        for fill in [0x00u8, 0x5a, 0xff] {
+            for k in 0..16 {
+                buf[k] = 0;
+            }
+            buf[0] = (1u8 << (8 - l)) | (fill & ((1u8 << (8 - l)).wrapping_sub(1)));
+            for k in 1..l {
+                buf[k] = fill;
+            }
+            let want = ref_read_vint(&buf[..16]);
+            let lens: Vec<usize> = (0..=16usize).map(|r| (1usize << 32) + r).chain([(1usize << 32) - 1, (1usize << 32) - 8]).collect();
+            for n in lens {
+                let b = &buf[..n];
+                let r = guarded(|| tools::read_vint(b)).map_err(|e| format!("read_vint(slice of {} bytes starting {:02x?}) panicked: {}", n, &b[..8], e))?;
+                let ok = match (&want, &r) {
+                    (VintRead::Bad, Err(_)) => true,
+                    (VintRead::Ok { value, len }, Ok(Some((v, ll)))) => value == v && len == ll,
+                    _ => false,
+                };
+                if !ok {
+                    return Err(format!("read_vint(slice of 2^32{:+} bytes starting {:02x?}) = {:?}, reference says {:?}", n as i64 - (1i64 << 32), &b[..8], r, want));
+                }
+                let sr = guarded(|| tools::read_signed_vint(b)).map_err(|e| format!("read_signed_vint(slice of {} bytes starting {:02x?}) panicked: {}", n, &b[..8], e))?;
+                let ok = match (&want, &sr) {
+                    (VintRead::Bad, Err(_)) => true,
+                    (VintRead::Ok { .. }, Ok(Some((v, ll)))) => ref_read_svint(&b[..16]) == Some((*v, *ll)),
+                    _ => false,
+                };
+                if !ok {
+                    return Err(format!("read_signed_vint(slice of 2^32{:+} bytes starting {:02x?}) = {:?}, reference says {:?}", n as i64 - (1i64 << 32), &b[..8], sr, ref_read_svint(&b[..16])));
+                }
+                units += 2;
+            }
+        }
+    }
+    c.units = units;
+    c.nontrivial_units = units;
+    c.checks += units;
+    c.label_n("slice_of_4GiB_or_more", units);
+    c.sample_with(|| "vint lengths 1..=8 x fill {00,5a,ff} x slice lengths 2^32-8, 2^32-1, 2^32+0..16".to_string());
+    Ok(())
+}
+
 pub const STAGES: &[Stage] = &[
     Stage { name: "enum_unsigned_blocks", f: st_u_block },
     Stage { name: "enum_signed_blocks", f: st_s_block },
@@ -379,6 +444,7 @@ pub const STAGES: &[Stage] = &[
     Stage { name: "lattice_signed", f: st_s_one },
     Stage { name: "lattice_ids", f: st_id_one },
     Stage { name: "random", f: st_random },
+    Stage { name: "giant_slices", f: st_giant_slices },
 ];
 
 pub fn run(rc: &mut RunCtx) {
@@ -407,6 +473,7 @@ pub fn run(rc: &mut RunCtx) {
         }
     }
     rc.run_indexed(STAGES[3], plan.len() as u64, true, &|i| Input::Args(vec![plan[i as usize].0, plan[i as usize].1]));
+    rc.run_indexed(STAGES[8], 1, true, &|_| Input::Args(vec![0]));
     rc.run_pt(STAGES[7], rc.pick(600_000, 10_000_000), (24, 24));
     rc.require_label("random", "slice_need_more", 20_000);
     rc.require_label("random", "slice_len9", 20_000);
